@@ -103,3 +103,49 @@ Fixpoint safe (dest : path) (tr : list (op D)) : bool :=
 Definition encoder_done (tr : list (op D)) : bool := existsb is_done tr.
 
 End Safe.
+
+(* ---------- a stronger predicate: nothing at all is modified while a cart is being encoded ---------- *)
+(* The monitor follows the open handles (is a handle a file or an anonymous temporary?) and whether an
+   encoder is running: from OpenTemp until the next EncoderDone it accepts no OpenWrite / Remove /
+   Rename of ANY path and no Write to a file handle.  It covers traces with several cart writes in a
+   row (p8tool luafmt a.p8 b.p8 ...). *)
+Fixpoint qlookup (hs : list (handle * bool)) (h : handle) : option bool :=
+  match hs with
+  | [] => None
+  | (k, v) :: r => if k =? h then Some v else qlookup r h
+  end.
+
+Fixpoint qremove (hs : list (handle * bool)) (h : handle) : list (handle * bool) :=
+  match hs with
+  | [] => []
+  | (k, v) :: r => if k =? h then qremove r h else (k, v) :: qremove r h
+  end.
+
+Definition qstate : Type := (list (handle * bool) * bool)%type.   (* (handle, is-a-file) ... , encoding? *)
+
+Definition qstep {D} (q : qstate) (o : op D) : option qstate :=
+  let (hs, enc) := q in
+  match o with
+  | OpenTemp h => Some ((h, false) :: qremove hs h, true)
+  | OpenWrite _ h => if enc then None else Some ((h, true) :: qremove hs h, enc)
+  | Write h _ =>
+    match qlookup hs h with
+    | Some true => if enc then None else Some (hs, enc)
+    | Some false => Some ((h, false) :: qremove hs h, enc)
+    | None => Some (hs, enc)
+    end
+  | Close h => Some (qremove hs h, enc)
+  | Remove _ => if enc then None else Some (hs, enc)
+  | Rename _ _ => if enc then None else Some (hs, enc)
+  | EncoderDone => Some (hs, false)
+  | _ => Some (hs, enc)
+  end.
+
+Fixpoint qrun {D} (q : qstate) (tr : list (op D)) : option qstate :=
+  match tr with
+  | [] => Some q
+  | o :: r => match qstep q o with Some q' => qrun q' r | None => None end
+  end.
+
+Definition quiet {D} (tr : list (op D)) : bool :=
+  match qrun ([], false) tr with Some _ => true | None => false end.
